@@ -80,16 +80,20 @@ def gen_cases(rng, ctx):
     thorough = ctx["tier"] == "thorough" or ctx.get("widened")
     cases = []
     n = 1500 if thorough else 320
-    for i in range(n):
-        version = rng.choice([1, 2, 2, 3])
+    nfront = 160 if thorough else 48
+    for i in range(n + nfront):
+        # the last nfront cases go through the real endpoint (Core::listen): real HTTP/2 over TLS / HTTP/3 over QUIC client,
+        # scripted origin on loopback
+        front = i >= n
+        version = rng.choice([1, 2, 2, 3]) if not front else rng.choice([2, 3, 3])
         method = rng.choice(["GET", "GET", "POST", "PUT", "HEAD", "DELETE"])
-        host = rng.choice(["origin.test", "origin.test:8080", "10.0.0.1"])
+        host = rng.choice(["origin.test", "origin.test:8080", "10.0.0.1"]) if not front else "@A"
         path = rng.choice(["/", "/p", "/a/b?x=1&y=%20"])
         uri = "http://%s%s" % (host, path)
         req_hs = [("accept", "*/*")]
         if rng.chance(1, 2):
             req_hs.append(("proxy-authorization", "Basic dTpw"))
-        if rng.chance(1, 3):
+        if rng.chance(1, 3) and not front:      # (a real HTTP/2 / HTTP/3 client refuses to send connection-specific fields)
             req_hs.append(("proxy-connection", "keep-alive"))
         if rng.chance(1, 3):
             req_hs.append(("user-agent", "ua/1.0"))
@@ -148,10 +152,10 @@ def gen_cases(rng, ctx):
         stream = pre + head + wire_body + trailing
         style = rng.choice(["whole", "1cut", "2cut", "3cut", "crlf", "bytes" if len(stream) < 400 else "3cut"])
         sizes = cuts(rng, len(stream), style, stream)
-        acc = accepts(rng, rng.choice(["all", "all", "one", "random"]))
+        acc = accepts(rng, rng.choice(["all", "all", "one", "random"])) if not front else []
         toks = [[version, 1], list(method.encode()), list(uri.encode()), flat(req_hs), sum(([len(c)] + list(c) for c in body_chunks), []),
                 list(stream), sizes, acc]
-        impl = line("c17_run", toks)
+        impl = line("c17_run", toks) if not front else line("c17_front", [[version]] + toks[1:7])
         # expectations
         dechunk = mode == "chunked" and version >= 2
         if bodiless:
@@ -191,7 +195,7 @@ def gen_cases(rng, ctx):
             fwd_body = body
         else:
             fwd_body = b""
-        cases.append(Case(impl, model, kind="%s:h%d:%s" % (mode if not bodiless else "bodiless", version, style),
+        cases.append(Case(impl, model, kind="%s%s:h%d:%s" % ("endpoint:" if front else "", mode if not bodiless else "bodiless", version, style),
                           nontrivial=(style != "whole" or bool(acc)),
                           meta={"method": method, "path": path, "exp_req_hs": exp_req_hs, "fwd_body": list(fwd_body), "declared": declared,
                                 "version": version, "status": status, "interim": interim, "exp_hs": exp_hs, "exp_body": list(exp_body),
@@ -225,6 +229,9 @@ def judge(case, impl, model, spec, ctx):
         return [("violation", "the forwarded stream panicked")]
     t = impl.split()
     m = case.meta
+    if t[0] == "996":
+        ctx.setdefault("skipped_env", []).append(case.kind)
+        return []
     if t[0] == "995":
         return [("violation", "HTTP/%d %s, %s response %d, origin pieces %s: the exchange never ended: the same origin bytes are offered to the sink again and again without being consumed"
                  % (m["version"], m["method"], m["mode"], m["status"], m["sizes"]))]
